@@ -132,7 +132,7 @@ def run_check(prop, tier, jobs, level_note, assumptions, bounds, seed=None, extr
                     continue
                 seen.add(key)
                 inconclusive.append((job.label, r))
-                log("  INCONCLUSIVE path: %s %s" % (r["status"], json.dumps({k: v for k, v in r.items() if k not in ("decisions", "inputs")})[:1200]))
+                log("  INCONCLUSIVE path: %s %s" % (r["status"], json.dumps({k: v for k, v in r.items() if k not in ("decisions", "inputs", "tb", "harness", "reached")})[:500] + (" | " + r["tb"][-300:].replace("\n", " / ") if r.get("tb") else "")))
         if job.expect_reach and s["reached"] == 0 and not bad and s["panic"] == 0:
             inconclusive.append((job.label, {"status": "vacuous", "why": "no path reached the end of the harness"}))
             log("  INCONCLUSIVE: vacuous harness (no path reached sym::reach)")
